@@ -55,7 +55,10 @@ def plan(thorough):
     t = "thorough" if thorough else "quick"
     cases = [("cases:param", "term/MC_CollapseCases", "MC_CC_param_%s.cfg" % t),
              ("cases:weight", "term/MC_CollapseCases", "MC_CC_weight_%s.cfg" % t),
-             ("cases:position", "term/MC_CollapseCases", "MC_CC_position_%s.cfg" % t)]
+             ("cases:position", "term/MC_CollapseCases", "MC_CC_position_%s.cfg" % t),
+             # two parameters, windows of up to 3 records over 3 values: non-monotone windows whose last record lies
+             # strictly inside their range (max-min vs. distance-from-the-last-record tell apart only there)
+             ("cases:param1", "term/MC_CollapseCases", "MC_CC_param1_quick.cfg")]
     if thorough:
         cases = [("cases:param:p%d" % k, "term/MC_CollapseCases", "MC_CC_param_thorough_p%d.cfg" % k) for k in (0, 1, 2)] + cases[1:]
         cases.append(("cases:param2", "term/MC_CollapseCases", "MC_CC_param2_thorough.cfg"))
